@@ -660,6 +660,57 @@ func (f *fileCtx) apply() []byte {
 	return out
 }
 
+// lockBearingMethod: the node on top of the stack lies in a function of a package that declares a struct type with a
+// sync.Mutex or sync.RWMutex field (directly or behind a pointer): the package implements an object meant to be shared
+// between goroutines, and every statement of it (also of its lock-free helpers, e.g. the ring buffer behind the pipe)
+// is a conditional scheduling point.
+var lockPkgCache = map[*types.Package]bool{}
+
+func (f *fileCtx) lockBearingMethod(stack []ast.Node) bool {
+	inFn := false
+	for i := len(stack) - 1; i >= 0; i-- {
+		switch x := stack[i].(type) {
+		case *ast.FuncLit:
+			inFn = true
+		case *ast.FuncDecl:
+			inFn = !(x.Recv == nil && x.Name.Name == "init")
+		}
+		if inFn {
+			break
+		}
+	}
+	if !inFn {
+		return false
+	}
+	pk := f.pkg.Types
+	if v, ok := lockPkgCache[pk]; ok {
+		return v
+	}
+	res := false
+	sc := pk.Scope()
+	for _, name := range sc.Names() {
+		tn, ok := sc.Lookup(name).(*types.TypeName)
+		if !ok {
+			continue
+		}
+		st, ok := tn.Type().Underlying().(*types.Struct)
+		if !ok {
+			continue
+		}
+		for k := 0; k < st.NumFields(); k++ {
+			ft := st.Field(k).Type()
+			if p, ok := ft.Underlying().(*types.Pointer); ok {
+				ft = p.Elem()
+			}
+			if n, ok := ft.(*types.Named); ok && n.Obj().Pkg() != nil && n.Obj().Pkg().Path() == "sync" && (n.Obj().Name() == "Mutex" || n.Obj().Name() == "RWMutex") {
+				res = true
+			}
+		}
+	}
+	lockPkgCache[pk] = res
+	return res
+}
+
 // sharedStateFunc returns the mutated package-level variable referenced by the innermost function around the node on
 // top of the stack (nil if none, or if that function is a top-level func init).
 func (f *fileCtx) sharedStateFunc(stack []ast.Node) *types.Var {
@@ -765,6 +816,18 @@ func (f *fileCtx) process() {
 		}
 		par := parent(0)
 		stack = append(stack, n)
+		// Methods of a struct type that carries a lock (sync.Mutex / RWMutex field) operate on state meant to be shared:
+		// every statement of such a method is a *conditional* scheduling point (simrt.PreIf: only for the packages a run
+		// enables lock-level exploration for). With the lock held the extra points only let other tasks run into the
+		// lock; if a change drops or narrows the locking they are what lets the race show.
+		if st, isStmt := n.(ast.Stmt); isStmt && inList(st, par) && f.lockBearingMethod(stack) {
+			switch st.(type) {
+			case *ast.ExprStmt, *ast.AssignStmt, *ast.IncDecStmt, *ast.ReturnStmt, *ast.SendStmt, *ast.DeclStmt,
+				*ast.IfStmt, *ast.SwitchStmt, *ast.TypeSwitchStmt, *ast.ForStmt, *ast.RangeStmt:
+				f.ins(st.Pos(), fmt.Sprintf("simrt.PreIf(%q); ", f.site(st.Pos())))
+				stats["lock_type_stmt_yield"]++
+			}
+		}
 		// A function that touches mutated package-level state anywhere in its body works on shared memory (possibly
 		// through local aliases of it): every statement of such a function is a scheduling point.
 		if st, isStmt := n.(ast.Stmt); isStmt && inList(st, par) {
